@@ -499,8 +499,9 @@ def c01(rec, table=None):
                     break
     # (c) interpolation points stay in the box
     for i, t in enumerate(rec.tr):
-        # bounds and points are O(1) in the alphabet: 1e-12 is far above rounding
-        if t["pts_out"] > 1e-12:
+        # 1e-12 relative to the magnitude of the points and bounds (O(1) in most of the alphabet; up to 2^40 in
+        # the scaled cross-feature cases) is far above rounding
+        if t["pts_out"] > 1e-12 * t.get("pts_mag", 1.0):
             out.append(V("interp-point-outside",
                          f"an interpolation point lies outside the box by {t['pts_out']:.3g} at iteration {i + 1}"))
             break
